@@ -87,6 +87,22 @@ def nested_signal(rng):
     return {"nodes": nodes, "bound": {}, "entrypoints": None, "selected": None}, inputs
 
 
+def interrupt_signal(rng):
+    """An interrupt that emits a signal a plain node waits for; the run either lets the handler answer or supplies the answer
+    under the interrupt's output name (the resume path).  Either way the interrupt completes, so the waiter must run once."""
+    F = lambda name, ins, outs, **kw: dict({"name": name, "kind": "func", "inputs": ins, "outputs": outs, "emit": [], "wait_for": [],  # noqa: E731
+                                           "defaults": {}, "fn": ["sym", name]}, **kw)
+    resume = rng.random() < 0.6
+    ask = {"name": "ask", "kind": "interrupt", "inputs": ["q"], "outputs": ["ans"], "emit": ["asked"], "wait_for": [], "defaults": {},
+           "fn": ["const", None] if resume else ["const", 9]}
+    nodes = [F("mk", ["x"], ["q"]), ask, F("rec", ["y"], ["rec_out"], wait_for=["asked"]), F("use", ["ans"], ["u"])]
+    rng.shuffle(nodes)
+    inputs = {"x": 1, "y": 5}
+    if resume:
+        inputs["ans"] = rng.choice([70, 0, "s"])
+    return {"nodes": nodes, "bound": {}, "entrypoints": None, "selected": None}, inputs
+
+
 def oracle(g, obs):
     bad = []
     nodes = {n["name"]: n for n in g["nodes"]}
@@ -155,6 +171,9 @@ def run(ctx):
     for _ in range(ctx.n(12, 120)):
         g, inputs = nested_signal(rng)
         add(g, inputs, {"family": "nested_signal"})
+    for _ in range(ctx.n(8, 60)):
+        g, inputs = interrupt_signal(rng)
+        add(g, inputs, {"family": "interrupt_signal"}, runners=("async",))
     nontrivial = set()
     dist = {}
 
@@ -183,6 +202,12 @@ def run(ctx):
                     msgs.append(f"{nm} waits for a signal emitted inside a nested graph that completed, and ran {count(obs, nm)} times")
             if "done" in obs["values"]:
                 msgs.append(f"the ordering-only name 'done' is among the returned values: {obs['values']['done']!r}")
+        if md["family"] == "interrupt_signal":
+            if obs["status"] != "completed":
+                msgs.append(f"run ended {obs['status']} ({obs.get('error_repr')})")
+            elif count(obs, "rec") != 1:
+                msgs.append(f"the interrupt that emits 'asked' completed ({'answer supplied by the caller' if 'ans' in rc['inputs'] else 'handler answered'}), "
+                            f"but the node waiting for 'asked' ran {count(obs, 'rec')} times")
         if md["family"] == "gate_emitter" and obs["status"] == "completed" and count(obs, "after") != 1:
             msgs.append(f"the node waiting on the gate's signal ran {count(obs, 'after')} times")
         if md["family"] == "L2" and obs["status"] == "completed":
@@ -204,7 +229,7 @@ def run(ctx):
         rule="DAGs with emit/wait_for pairs (several waiters per signal), two ordered stages emitting one signal with a waiter fed by a side "
              "chain of length 0-3, a cycle whose waiter awaits two signals one of which is produced every other iteration, a gate as "
              "producer, loops whose gate waits on the end-of-iteration signal, signals emitted inside nested graphs (plain, mapping, two levels, "
-             "renamed data output) awaited in the enclosing graph; both runners, adversarial completion orders; "
+             "renamed data output) awaited in the enclosing graph, an interrupt emitting a signal (handler answers / answer supplied by the caller); both runners, adversarial completion orders; "
              "non-trivial = some waiting node actually ran",
         distribution=dist, samples=[{"graph": cases[0][0]["nodes"], "run": cases[0][1]}],
         traces_validated_against_impl=len(obs_all), disagreements_checked=res["n"])
